@@ -239,6 +239,14 @@ def integral_float_at_restricted_int(t, v):
         return False
 
 
+def _nonstr_keys(v):
+    if isinstance(v, dict):
+        return any(not isinstance(k, str) for k in v) or any(_nonstr_keys(x) for x in v.values())
+    if isinstance(v, (list, tuple)):
+        return any(_nonstr_keys(x) for x in v)
+    return False
+
+
 def _strings(v):
     if isinstance(v, str):
         yield v
@@ -280,6 +288,11 @@ def case_channels(ctx, i, rng):
             inputs[k] = nm[0]
             bad = (k, nm[1])
     if not inputs:
+        return
+    if any(types[k].has("union") and _nonstr_keys(v) for k, v in inputs.items()):
+        # JSON object keys are strings: a mapping with int keys under a Union (where a Dict[str, ...] member may take the
+        # same text) has no faithful textual form
+        ctx.count("int_keyed_mapping_under_union_not_rendered")
         return
     skip_text = [k for k, v in inputs.items() if text_ambiguous(types[k], v) or types[k].has("any") or v == "--"]  # argparse reads "--k=--" as no value
     if skip_text:
